@@ -154,7 +154,10 @@ QueriesEv ==
 
 \* the three first-layer decommitments: original and interaction traces, composition
 DecValues == CASE sk.ndec = 0 -> pr.orig_values [] sk.ndec = 1 -> pr.inter_values [] OTHER -> pr.comp_values
-DecCols   == CASE sk.ndec = 0 -> BNOf(pr.n1) [] sk.ndec = 1 -> BNOf(pr.n2) [] OTHER -> BNOf(pr.cdeg)
+\* trace tables: the layout's column counts (configuration validation has tied the declared counts to them); composition
+\* table: the declared count, which configuration validation leaves free - a count other than the constraint degree can
+\* only fail the length guard or the decommitment
+DecCols   == CASE sk.ndec = 0 -> BNOf(pr.n1) [] sk.ndec = 1 -> BNOf(pr.n2) [] OTHER -> pr.comp_ncols
 \* both trace decommitments are evaluated before their verdicts are combined
 MayStartDec == sk.ndec = 0 \/ sk.ndec = 1 \/ (sk.ndec = 2 /\ ~sk.failed)
 DecTcBegin ==
@@ -162,12 +165,12 @@ DecTcBegin ==
     /\ TcBegin
     /\ Ev.queries = sk.queries /\ Ev.values = DecValues /\ Ev.n_columns = DecCols
     /\ Ev.height = BNOf(LogEval) /\ Ev.nvf = pr.nvf
-    /\ sk' = [sk EXCEPT !.stage = "dec_open", !.failed = (@ \/ Len(DecValues) # BNToInt(DecCols) * Len(sk.queries))]
+    /\ sk' = [sk EXCEPT !.stage = "dec_open", !.failed = (@ \/ BNOf(Len(DecValues)) # BNMul(DecCols, BNOf(Len(sk.queries))))]
     /\ UNCHANGED fri
 \* length guard failed: the call returned without opening anything; the next decommitment (or the end) follows
 DecLenFail ==
     /\ sk.stage = "dec_open" /\ tc.st = "begin"
-    /\ Len(tc.values) # BNToInt(tc.ncols) * Len(tc.queries)
+    /\ BNOf(Len(tc.values)) # BNMul(tc.ncols, BNOf(Len(tc.queries)))
     /\ sk' = [sk EXCEPT !.stage = "dec", !.ndec = @ + 1]
     /\ tc' = NoTc /\ UNCHANGED <<l, vvars, fri>>
 DecVcEnd ==
@@ -222,6 +225,14 @@ ResultEv ==
 
 DecInner == sk.stage = "dec_open" /\ UNCHANGED <<sk, fri>> /\
             (\/ TcRows \/ VcBeginLinked \/ ((VcNodePair \/ VcNodeAuth) /\ UNCHANGED tc))
+
+\* DecLenFail and DecAbort consume no event, so the number of states is not the number of consumed events: acceptance is
+\* decided on the highest cursor position reached (register 1, updated by the state constraint TrackL; one worker).
+ASSUME TLCSet(1, 1)
+TrackL == TLCSet(1, IF l > TLCGet(1) THEN l ELSE TLCGet(1))
+AcceptedS == IF TLCGet(1) = Len(Rec) + 1 THEN TRUE
+             ELSE /\ PrintT(<<"TRACE-REJECTED", TLCGet(1)>>)
+                  /\ FALSE
 
 SNext == \/ SReset \/ Proof \/ ConfigOkEv \/ PiOkEv \/ SeedEv \/ AbsOrig \/ SqIE \/ AbsInter \/ SqAlpha \/ AbsComp \/ SqZ \/ AbsOods
          \/ OodsEv \/ SqAlpha2 \/ AbsFriCommit \/ SqFriEval \/ AbsLast \/ PowEv \/ AbsNonce \/ CommitOkEv \/ SqQuery \/ QueriesEv
